@@ -605,6 +605,7 @@ def validate_parser(rep, lg, N, count, rnd):
         sol.add(z3.ULE(t, ntok))
         for s in skip:
             sol.add(t != s)
+    previous = []      # token sequences the real parser has seen so far in this process, in order
     bad = []
     done = 0
     for k in range(4, n + 2):
@@ -654,7 +655,18 @@ def validate_parser(rep, lg, N, count, rnd):
                 real, errs = lg.real_parse_tokens(c[:-1])
                 done += 1
                 if enc_a != real or (not rep.violations and enc != real):
-                    bad.append((_symnames(lg, c), enc, enc_a, real))
+                    # grammar and shipped automaton agree with each other and the generated parser disagrees: if the same parser, asked
+                    # in a process of its own, gives the prescribed verdict, then its verdict on this token sequence depends on what
+                    # was parsed before - on a token sequence the parser must give the verdict the grammar prescribes, whatever came first
+                    hist = _history_dependence(lg, previous, c, enc) if enc == enc_a else None
+                    if hist is not None:
+                        rep.violation("O2h:history", "the verdict of the generated parser on a token sequence depends on what the same process parsed before: after %r it %s %r, "
+                                      "which blackbird.g4 and the shipped automaton %s (and so does the parser in a process of its own)"
+                                      % ([_symnames(lg, h) for h in hist], "accepts" if real else "rejects", _symnames(lg, c), "derive" if enc else "reject"),
+                                      _replay_src("parse_history", {"history": hist, "w": c}), "o2h_%d" % len(rep.violations))
+                    else:
+                        bad.append((_symnames(lg, c), enc, enc_a, real))
+                previous.append(list(c))
                 if c is sent:
                     rep.sample({"parser_sentence": _symnames(lg, c), "real_parser_accepts": real}, limit=9)
     rep.validated += done
@@ -1034,6 +1046,40 @@ def validate_corpus(rep, lg):
 
 
 # --------------------------------------------------------------------------- replay
+HIST_SRC = r"""
+import sys, json
+sys.path.insert(0, %(root)r)
+from bbverif.atnsmt import lang as langmod
+lg = langmod.Lang()
+out = []
+for w in %(seqs)r:
+    out.append(bool(lg.real_parse_tokens(w[:-1])[0]))
+print(json.dumps(out))
+"""
+
+
+def _verdicts_in_fresh_process(seqs):
+    import json
+    import subprocess
+    p = subprocess.run([common.PY, "-W", "ignore", "-c", HIST_SRC % {"root": common.ROOT, "seqs": seqs}], capture_output=True, text=True, timeout=300)
+    lines = [l for l in p.stdout.strip().split("\n") if l.startswith("[")]
+    return json.loads(lines[-1]) if lines else None
+
+
+def _history_dependence(lg, previous, c, want):
+    """None, or a shortest-found list of earlier token sequences after which a fresh process gives the wrong verdict on c while it gives
+    the prescribed one on c alone"""
+    alone = _verdicts_in_fresh_process([list(c)])
+    if alone is None or alone[0] != want:
+        return None
+    for hist in ([previous[-1]] if previous else []) + ([previous[-3:]] if len(previous) > 1 else []) + [previous]:
+        hist = [list(h) for h in (hist if hist and isinstance(hist[0], list) else [hist])]
+        v = _verdicts_in_fresh_process(hist + [list(c)])
+        if v is not None and v[-1] != want:
+            return hist
+    return None
+
+
 def _replay_src(kind, data):
     return (
         "#!/usr/bin/env python\n"
@@ -1057,6 +1103,14 @@ def replay(kind, data):
         print("shipped  :", _names(lg, real))
         print("grammar  :", _names(lg, want))
         return 1 if real != want else 0
+    if kind == "parse_history":
+        w = data["w"]
+        g = cfg.concrete_derives(lg.parser_G(), lg.rule_ids["start"], w)
+        alone = _verdicts_in_fresh_process([w])[0]
+        after = _verdicts_in_fresh_process(data["history"] + [w])[-1]
+        print("tokens   :", _symnames(lg, w))
+        print("grammar derives:", g, " parser alone accepts:", alone, " parser after", [_symnames(lg, h) for h in data["history"]], "accepts:", after)
+        return 1 if (after != g or alone != g) else 0
     if kind == "parse":
         w = data["w"]
         root = data["root"]
